@@ -68,7 +68,7 @@ func (k Keeper) RecvPacket(goCtx context.Context, msg *packettypes.MsgRecvPacket
 
 	if packet.GetDstChain() == k.ClientKeeper.GetChainName(cctx) {
 		// call packet onRecvPacket
-		res, err := k.PacketKeeper.CallPacket(ctx, "onRecvPacket", packet)
+		res, err := k.PacketKeeper.CallPacket(cctx, "onRecvPacket", packet)
 		if err != nil {
 			// Write ErrAck
 			errAckBz, err := packettypes.NewAcknowledgement(1, []byte{}, "receive packet callback failed", relayer, packet.FeeOption).ABIPack()
